@@ -104,3 +104,11 @@ def rules(t):
     out = _rules_c08_w5(t)
     shared.share(t, out, "C08.k", "send-side memory is given back only together with the departure of the whole message from unacked_messages, by that message's own length (not slice by slice)", "C09", ("C09.i",))
     return out
+
+_rules_C08_w6 = rules
+def rules(t, *a, **kw):
+    import rules.wave6 as W6
+    out = _rules_C08_w6(t, *a, **kw)
+    out.append(W6.stale_index(t, "C08.l"))
+    out.append(W6.ack_record_value(t, "C08.m"))
+    return out
